@@ -126,3 +126,54 @@ Definition capiops (pf : Z) (ops : list (list Z)) : list Z :=
                             let '(st', out) := cstep_any (profile_of_Z pf) st o in
                             (st', outs ++ render_cout out ++ [-1]))
               ops ((0%nat, []), []) in outs.
+
+(* Allocation traces (Model/Alloc.v): a history of calls (n, sorts) for one
+   float width; cold = every call through an allocating wrapper. *)
+Require Import KV.Model.Alloc.
+
+Definition allochist (szT cold : Z) (calls : list (Z * Z)) : list Z :=
+  let szT := Z.to_N szT in
+  if negb (cold =? 0) then
+    flat_map (fun c : Z * Z => let '(n, s) := c in
+                let tr := cold_call (Z.to_N n) szT (negb (s =? 0)) in
+                map Z.of_N tr ++ [-2; Z.of_N (total tr); -1]) calls
+  else
+    snd (fold_left (fun (acc : caps * list Z) (c : Z * Z) =>
+                      let '(cp, out) := acc in let '(n, s) := c in
+                      let '(cp', tr) := with_call cp (Z.to_N n) szT (negb (s =? 0)) in
+                      (cp', out ++ map Z.of_N tr ++ [-2; -1]))
+                   calls (caps0, [])).
+
+(* Access counts (Model/Cost.v): linkage for the five chain methods, mst,
+   nnchain; rendering = the usual run rendering followed by the count. *)
+Require Import KV.Model.Cost KV.Model.Mst KV.Model.Chain.
+
+Section CostRun.
+Set Implicit Arguments.
+Variable T : Type.
+Variable F : fops T.
+Variable of_bits : Z -> T.
+Variable to_bits : T -> Z.
+
+Definition cost_run (pf al me n : Z) (m : list Z) : list Z :=
+  let p := profile_of_Z pf in
+  let meth := method_of_Z me in
+  let mm := map of_bits m in
+  let nn := Z.to_N n in
+  let r :=
+    if d_new_ok nn then
+      match algo_of_Z al, meth with
+      | AMst, _ | ALinkage, Single =>
+          mst_with_c (kops_of F Single) p (st_new T) (d_new T (N.to_nat (N.min nn two32))) mm nn
+      | _, _ => nnchain_with_c (kops_of F meth) p meth (st_new T) (d_new T (N.to_nat (N.min nn two32))) mm nn
+      end
+    else Panic PCapacity in
+  match r with
+  | Ok (s, d, m', cnt) => render_run to_bits (Ok (s, d, m')) ++ [Z.of_N cnt]
+  | Panic k => [1; panic_code k]
+  | OutOfFuel => [2]
+  end.
+End CostRun.
+
+Definition cost64 pf al me n m := cost_run F64 f64_of_bits f64_to_bits pf al me n m.
+Definition cost32 pf al me n m := cost_run F32 f32_of_bits f32_to_bits pf al me n m.
